@@ -30,6 +30,11 @@ struct world : sim::configuration
 	std::map<std::string, std::shared_ptr<sim::sink>> hops;
 	std::vector<std::pair<std::string, std::string>> mtu_calls;
 	bool strip_probes = false;
+	// "default": true - the routes are those of the library's own sim::default_config (wrapped in probes); the
+	// parameters recorded for the specification are the documented ones (200 kB/s up, 800 kB/s down, 1 ms and
+	// 200 kB per modem queue, 30 ms network), so a default that silently changes is a rejected trace
+	bool use_default = false;
+	sim::default_config dflt;
 
 	static std::string real_of(std::string const& sym)
 	{
@@ -64,6 +69,7 @@ struct world : sim::configuration
 	{
 		tick_ns = geti(t, "tick_ns", tick_ns);
 		dmtu = int(geti(t, "dmtu", 1475));
+		use_default = t.find("default") != t.end() && t.at("default").as_bool();
 		if (t.find("addrs") != t.end())
 			for (auto const& kv : t.at("addrs").as_object())
 			{
@@ -74,6 +80,11 @@ struct world : sim::configuration
 				c.out_lat = geti(a, "out_lat"); c.in_lat = geti(a, "in_lat");
 				c.out_cap = int(geti(a, "out_cap")); c.in_cap = int(geti(a, "in_cap"));
 				c.out_bw = int(geti(a, "out_bw")); c.in_bw = int(geti(a, "in_bw"));
+				if (use_default)
+				{
+					c.out_lat = c.in_lat = 1000000 / tick_ns;
+					c.out_bw = 200 * 1000; c.in_bw = 800 * 1000; c.out_cap = c.in_cap = 200 * 1000;
+				}
 				add_addr(c);
 				for (std::size_t b = 0; b < c.nat.size();)
 				{
@@ -90,7 +101,8 @@ struct world : sim::configuration
 				json::object const& m = mv.as_object();
 				mtu[{gets(m, "a"), gets(m, "b")}] = int(geti(m, "m"));
 			}
-		if (t.find("net") != t.end())
+		if (use_default) { has_net = true; net_lat = 30000000 / tick_ns; net_cap = 0; net_bw = 0; dmtu = 1475; mtu.clear(); }
+		else if (t.find("net") != t.end())
 		{
 			json::object const& n = t.at("net").as_object();
 			has_net = true; net_lat = geti(n, "lat"); net_cap = int(geti(n, "cap")); net_bw = int(geti(n, "bw"));
@@ -114,8 +126,8 @@ struct world : sim::configuration
 		return q;
 	}
 
-	void build(sim::simulation& s) override { sim_ = &s; }
-	void clear() override { queues.clear(); hops.clear(); on_probe = nullptr; }
+	void build(sim::simulation& s) override { sim_ = &s; if (use_default) dflt.build(s); }
+	void clear() override { queues.clear(); hops.clear(); on_probe = nullptr; if (use_default) dflt.clear(); }
 
 	sim::route channel_route(asio::ip::address, asio::ip::address) override
 	{
@@ -124,7 +136,8 @@ struct world : sim::configuration
 		if (has_net)
 		{
 			r.append(probe("net:in"));
-			r.append(queue("net", net_bw, net_lat, net_cap));
+			if (use_default) r.append(dflt.channel_route(asio::ip::address(), asio::ip::address()));
+			else r.append(queue("net", net_bw, net_lat, net_cap));
 			r.append(probe("net:out"));
 		}
 		return r;
@@ -136,7 +149,8 @@ struct world : sim::configuration
 		auto it = addrs.find(s);
 		if (it == addrs.end()) return r;
 		r.append(probe("inq:" + s));
-		r.append(queue("in:" + s, it->second.in_bw, it->second.in_lat, it->second.in_cap));
+		if (use_default) r.append(dflt.incoming_route(ip));
+		else r.append(queue("in:" + s, it->second.in_bw, it->second.in_lat, it->second.in_cap));
 		r.append(probe("in:" + s));
 		return r;
 	}
@@ -159,7 +173,8 @@ struct world : sim::configuration
 			if (!real2sym.count(real_of(one))) real2sym[real_of(one)] = one;
 			r.append(hops[n]);
 		}
-		r.append(queue("out:" + s, it->second.out_bw, it->second.out_lat, it->second.out_cap));
+		if (use_default) r.append(dflt.outgoing_route(ip));
+		else r.append(queue("out:" + s, it->second.out_bw, it->second.out_lat, it->second.out_cap));
 		r.append(probe("outq:" + s));
 		return r;
 	}
@@ -167,6 +182,7 @@ struct world : sim::configuration
 	{
 		std::string sa = sym_of(a), sb = sym_of(b);
 		mtu_calls.push_back({sa, sb});
+		if (use_default) return dflt.path_mtu(a, b);
 		auto it = mtu.find({sa, sb});
 		return it == mtu.end() ? dmtu : it->second;
 	}
